@@ -89,8 +89,13 @@ impl PhoneticSuggestion {
                     let key = &middle[..(middle.len() - suffix_key.len())];
                     if let Some(cache) = self.cache.get(key) {
                         for base in cache {
-                            let base_rmc = base.to_string().chars().last().unwrap(); // Right most character.
-                            let suffix_lmc = suffix.chars().next().unwrap(); // Left most character.
+                            // Right most character and left most character.
+                            // An empty item (eg. from an empty auto correct entry) has nothing to be joined with.
+                            let (base_rmc, suffix_lmc) =
+                                match (base.to_string().chars().last(), suffix.chars().next()) {
+                                    (Some(rmc), Some(lmc)) => (rmc, lmc),
+                                    _ => continue,
+                                };
                             let mut word = String::with_capacity(middle.len() * 3);
                             word.push_str(base.to_string());
                             match base_rmc {
@@ -265,8 +270,11 @@ impl PhoneticSuggestion {
                     let key = &string.word()[..len - test.len()];
 
                     if let Some(base) = selections.get(key) {
-                        let rmc = base.chars().last().unwrap();
-                        let suffix_lmc = suffix.chars().next().unwrap();
+                        // An empty entry (eg. from a hand edited file) has nothing to be joined with.
+                        let (rmc, suffix_lmc) = match (base.chars().last(), suffix.chars().next()) {
+                            (Some(rmc), Some(lmc)) => (rmc, lmc),
+                            _ => continue,
+                        };
                         selected.push_str(base);
 
                         match rmc {
@@ -336,6 +344,8 @@ impl PhoneticSuggestion {
         self.user_autocorrect
             .get(term)
             .map(String::as_str)
+            // The entries are written in Avro Phonetic (ASCII), so ignore an entry which is not.
+            .filter(|correct| correct.is_ascii())
             .or_else(|| data.search_corrected(term))
     }
 }
